@@ -1,6 +1,7 @@
 """C01 - built-in gates act as their defining unitaries on exactly the addressed qubits."""
 import time
 
+import qrt_common
 import qsim_common
 import vlib
 
@@ -16,11 +17,19 @@ def run(tier, seed):
     for i, v in enumerate([v for v in rep["violations"] if v["property"] == PID][:5]):
         out.violation(v["what"], {"kind": "qsim-edge", "spec_state": v["state"], "action": v["action"],
                                   "what": v["what"], "how": "bin/vcheck C01 --replay <this file>"}, "edge%d" % i)
+    # program level: the gate the evaluator hands to the simulator (name, qubit index, angle) is the one the program wrote,
+    # whichever way the qubit is named (local, element, object field inside a method, parameter of a function / static method)
+    stats, by_prop, sample = qrt_common.run(tier, seed)
+    pviol = by_prop.get(PID, [])
+    for v in pviol[:5]:
+        out.violation(v["what"], v, "beh%d" % v["behaviour"])
+    nviol += len(pviol)
     edges = sum(rep["per_action"].get(g, 0) for g in GATES)
     cov = {"states": meta["distinct"], "transitions": meta["generated"],
            "traces_validated_against_impl": edges,
            "samples": rep["samples"][:4] or [{"note": "no sample recorded"}],
            "per_gate_edges_replayed": {g: rep["per_action"].get(g, 0) for g in GATES},
+           "program_behaviours_run": stats["behaviours"], "program_operations_compared": stats["ops_total"],
            "nodes_replayed": rep["nodes"], "unreached_nodes": rep["unreached"],
            "tlc": meta, "exhaustive": True,
            "rule": "every state of MCQSim reachable with <= %d qubits; every enabled gate action "
